@@ -28,7 +28,8 @@ RULE = (
     "the documented aggregate of independently recomputed per-case J, and a "
     "ledger of collected blocks. Non-trivial = at least two evaluations on the "
     "shared object with a mode switch, initialize or a different vector in "
-    "between; distinct = distinct scenario-document digests.")
+    "between; distinct = distinct scenario-document digests."
+    " Further operations and batches: read-only API calls, an allocation failing inside get_differentials, a model that is singular at the origin, surrogate runs in which every evaluation is observed with the objective's mode, and two caller threads with an objective object each under the line-event scheduler.")
 COMPONENTS = {
     "real": ["FigureOfMerit, FigureOfMeritLE (evaluate, initialize, set_model, "
              "set_raw, get_differentials, sum_up_results)",
